@@ -280,3 +280,59 @@ Print Assumptions C15_isomorphic_verdict.
 Print Assumptions C15_isomorphic_verdict_conv.
 Print Assumptions C15_iso_check_sound.
 Print Assumptions C15_moved_subroutine_example.
+
+(* ------------------------------------------------------------------------------------------------------------
+   Extension (moving whole subroutine bodies, layer 2: the parse level; Lemmas/MoveSubLemmas.v, example in
+   Lemmas/MoveSubEx.v).  p = M ++ S1 ++ S2 ++ R, p' = M ++ S2 ++ S1 ++ R, g = the induced position shift. *)
+From Tealer Require Import MoveSubLemmas MoveSubEx.
+
+(* instruction level, every program: opcodes, label table, Instruction.next (default successor first, then the jump
+   targets in order) and the bz/bnz next-line test of p' are the g-images of those of p *)
+Theorem C15_move_instruction_graph :
+  forall M S1 S2 R : prog, movable M S1 S2 = true ->
+  (forall k, op_at (mv_p' M S1 S2 R) (mv_g M S1 S2 k) = op_at (mv_p M S1 S2 R) k) /\
+  (forall l, find_label (mv_p' M S1 S2 R) l = option_map (mv_g M S1 S2) (find_label (mv_p M S1 S2 R) l)) /\
+  (forall k, ins_next (mv_p' M S1 S2 R) (mv_g M S1 S2 k) = option_map (map (mv_g M S1 S2)) (ins_next (mv_p M S1 S2 R) k)) /\
+  (forall br k, op_at (mv_p M S1 S2 R) k = Some br ->
+     branch_to_next (mv_p' M S1 S2 R) br (mv_g M S1 S2 k) = branch_to_next (mv_p M S1 S2 R) br k).
+Proof.
+  intros M S1 S2 R H.
+  exact (conj (mv_op_at M S1 S2 R) (conj (mv_find_label M S1 S2 R H) (conj (mv_ins_next M S1 S2 R H) (mv_branch_to_next M S1 S2 R H)))).
+Qed.
+
+(* a label defined in both moved bodies breaks it (the last definition wins) *)
+Theorem C15_move_duplicate_label_refuted :
+  exists M S1 S2 R l,
+    ends_nf M = true /\ ends_nf S1 = true /\ ends_nf S2 = true /\ S1 <> nil /\ S2 <> nil /\
+    labs_disjoint S1 S2 = false /\
+    find_label (mv_p' M S1 S2 R) l <> option_map (mv_g M S1 S2) (find_label (mv_p M S1 S2 R) l).
+Proof. exact mv_find_label_refuted. Qed.
+
+(* block level: whenever the model's graph check accepts the two parsed contracts under the block renaming computed
+   from the block scan of p, contexts, validation and the path lists of all detectors coincide, for every fuel *)
+Theorem C15_move_subroutine_partial :
+  forall (M S1 S2 R : prog) (t t' : teal),
+  movable M S1 S2 = true ->
+  parse_teal (mv_p M S1 S2 R) = Ok t -> parse_teal (mv_p' M S1 S2 R) = Ok t' ->
+  iso_check_graph (mv_r M S1 S2 R) (mv_g M S1 S2) (whole_function t) (whole_function t') = true ->
+  let r := mv_r M S1 S2 R in
+  fiso r (mv_g M S1 S2) (whole_function t) (whole_function t') /\
+  forall fuel,
+  run_all (whole_function t') fuel = omap (ren_result r) (run_all (whole_function t) fuel) /\
+  forall res,
+    (forall b fam, ctx_of (ren_result r res) (r b) fam = ctx_of res b fam) /\
+    (forall b checks ai, validated_in_block (ren_result r res) checks ai (r b) = validated_in_block res checks ai b) /\
+    (forall fuel' name checks,
+       run_detector (whole_function t') (ren_result r res) fuel' name checks =
+       omap (ren_paths r) (run_detector (whole_function t) res fuel' name checks)).
+Proof. exact move_sub_verdicts_partial. Qed.
+
+Theorem C15_move_subroutine_example :
+  movable mx_M mx_S1 mx_S2 = true /\
+  iso_check_graph (mv_r mx_M mx_S1 mx_S2 nil) (mv_g mx_M mx_S1 mx_S2) (whole_function ie_t) (whole_function mx_t') = true.
+Proof. exact (conj mx_movable mx_check). Qed.
+
+Print Assumptions C15_move_instruction_graph.
+Print Assumptions C15_move_duplicate_label_refuted.
+Print Assumptions C15_move_subroutine_partial.
+Print Assumptions C15_move_subroutine_example.
